@@ -37,6 +37,16 @@ def attr(v):
     return v
 
 
+CAP = 2 ** 24          # no case of any driver stores a pixel value or total of this magnitude
+
+
+def _cap(v, cap=CAP):
+    """A stored value far outside what the cases hold (a wrapped / clipped number written by defective code) is projected to
+    the token cap + 1 with its sign: still wrong for every clause that looks at it, but sums of a few of them stay inside
+    TLC's 32-bit integers (a TLC overflow is a machinery error, and a machinery error proves nothing)."""
+    return v if -cap <= v <= cap else (cap + 1 if v > 0 else -cap - 1)
+
+
 def raw_collection(grp, max_rows=5000, scale=1):
     """Raw view of one collection (an h5py group), in the shape CoolerData!CSRClauses expects (count and sum times `scale`)."""
     at = {k: attr(v) for k, v in grp.attrs.items()}
@@ -49,7 +59,7 @@ def raw_collection(grp, max_rows=5000, scale=1):
     names = grp["chroms/name"][:]
     out = {
         "nbins": to_int(at.get("nbins", -1)), "nchroms": to_int(at.get("nchroms", -1)),
-        "nnz": to_int(at.get("nnz", -1)), "sum": to_int(at.get("sum", 0) * scale, "sum attribute"),
+        "nnz": to_int(at.get("nnz", -1)), "sum": _cap(to_int(at.get("sum", 0) * scale, "sum attribute"), 2 ** 30),
         "mode": str(at.get("storage-mode", "symmetric-upper")),
         "bintype": str(at.get("bin-type", "missing")),
         "binsize": 0 if (isinstance(bs, str)) else to_int(bs),
@@ -58,7 +68,7 @@ def raw_collection(grp, max_rows=5000, scale=1):
         "chromlens": ints(grp["chroms/length"][:]), "nnames": int(len(names)),
         "bin1": ints(px["bin1_id"][:]), "bin2": ints(px["bin2_id"][:]),
         "hascount": "count" in cols,
-        "count": ints(np.asarray(px["count"][:]) * scale, "count column") if "count" in cols else [],
+        "count": [_cap(v) for v in ints(np.asarray(px["count"][:]) * scale, "count column")] if "count" in cols else [],
         "lens": [int(px[c].shape[0]) for c in cols],
         "bin1_offset": ints(grp["indexes/bin1_offset"][:]), "chrom_offset": ints(grp["indexes/chrom_offset"][:]),
     }
